@@ -61,6 +61,36 @@ OTHER_SITES = {
     "method-arg": lambda s, t: "type R struct { .F: i32 };\nfn (r: R) m(p: %s) {\n}\nfn main() {\n  let x: %s = %s;\n  let r: R = { .F = 1 } as R;\n  r.m(x);\n}\n" % (t, s, lit(s)),
 }
 
+# the same sites with the source value reached through other expression forms (seed C11e: only expressions that reach the tail of
+# checkExpr - a field access - were re-typed as the expected optional)
+_FORMS = {
+    "field":   lambda s: ("type Q struct { .G: %s };\n" % s, "  let q: Q = { .G = %s } as Q;\n" % lit(s), "q.G"),
+    "element": lambda s: ("", "  let qa: [1]%s = [%s];\n" % (s, lit(s)), "qa[0]"),
+    "call":    lambda s: ("fn mk() -> %s {\n  return %s;\n}\n" % (s, lit(s)), "", "mk()"),
+    "method":  lambda s: ("type Q struct { .G: %s };\nfn (q: Q) get() -> %s {\n  return q.G;\n}\n" % (s, s), "  let q: Q = { .G = %s } as Q;\n" % lit(s), "q.get()"),
+    "paren":   lambda s: ("", "  let x: %s = %s;\n" % (s, lit(s)), "(x)"),
+}
+_TARGETS = {
+    "optional": lambda t, e: ("", "  let o: %s? = %s;\n" % (t, e)),
+    "let":      lambda t, e: ("", "  let y: %s = %s;\n" % (t, e)),
+    "assign":   lambda t, e: ("", "  let y: %s = %s;\n  y = %s;\n" % (t, lit(t), e)),
+    "arg":      lambda t, e: ("fn f(p: %s) {\n}\n" % t, "  f(%s);\n" % e),
+    "optional-arg": lambda t, e: ("fn f(p: %s?) {\n}\n" % t, "  f(%s);\n" % e),
+    "field-init": lambda t, e: ("type R struct { .F: %s };\n" % t, "  let r: R = { .F = %s } as R;\n" % e),
+    "optional-field-init": lambda t, e: ("type R struct { .F: %s? };\n" % t, "  let r: R = { .F = %s } as R;\n" % e),
+}
+def _mk_site(form, target):
+    def site(s, t):
+        d1, pre, e = _FORMS[form](s)
+        d2, use = _TARGETS[target](t, e)
+        return d1 + d2 + "fn main() {\n" + pre + use + "}\n"
+    return site
+for _f in _FORMS:
+    for _t in _TARGETS:
+        OTHER_SITES["%s<-%s" % (_t, _f)] = _mk_site(_f, _t)
+# the form x target product is run over a reduced type set (every signedness / width step / float step is in it)
+FORM_TYPES = ["i16", "i32", "i64", "u8", "u32", "f32", "f64"]
+
 def bits(t):
     return 8 if t == "byte" else int(t[1:])
 
@@ -117,7 +147,8 @@ def gen_table(run, work):
     v.append(";\n".join("  (%s, %s)" % (CTOR[s], CTOR[t]) for s, t in named))
     v.append("].")
     # other sites (compound assignment, operands, initialisers, elements, ...): every accepted pair of distinct types
-    ojobs = [(site, s, t) for site in OTHER_SITES for s in NTY for t in NTY if s != t or s in ("i32", "f64")]
+    ojobs = [(site, s, t) for site in OTHER_SITES for s in NTY for t in NTY if (s != t or s in ("i32", "f64"))
+             and ("<-" not in site or (s in FORM_TYPES and t in FORM_TYPES))]
     ors = common.batch_typecheck_sources([OTHER_SITES[site](s, t) for site, s, t in ojobs], work, "o")
     ores = {j: r["ok"] for j, r in zip(ojobs, ors)}
     for j in ojobs:
